@@ -1,14 +1,20 @@
 import CV.Proofs.QuantExamples
 import CV.Proofs.QuantCatLink
+import CV.Proofs.QuantFloatInstances
 /-!
 # C05 (component `quant`): all representations of one float-derived model are the same model
 
 * eager vs lazy `…_fast`: both are `cdf i = min (h i) free + i` over the *same* integer sequence
   `h` (that the two float pipelines produce the same `h` is checked bit-for-bit by the native
-  replicas: `mono=` certificate compares `hE` and `hL`), so the encoders coincide
+  replicas: the `mono=` certificate compares `hE` and `hL`; proved by `decide` on the D4 table:
+  `d4_hL_eq_hE`), so the encoders coincide
   (`C05_eager_enc_eq_lazy_enc`) and the lazy decoder returns what `cat`'s specification decoder
   returns on the eager table (`C05_lazy_dec_eq_spec`; the eager binary search is `cat`'s
   `Contiguous.dec_eq`) — under TB-F2 for the skip phase;
+* the five `…_fast` representations (contiguous, non-contiguous encoder/decoder, contiguous and
+  non-contiguous lookup) are built over the same `fast_quantized_cdf` items and have the same
+  symbol table (`C05_fast_same_table`; their decoders/encoders are the labelled specification
+  model of that table: `C03_ncdec_fast`, `C03_ncenc_fast`, `C03_lookup_fast`, `C03_nclookup_fast`);
 * leakily quantised model: the symbol-table iterator lists exactly the encoder's answers, in
   order, for `min, …, max` (`C05_leaky_table`) — false before D1 (`C05_D1_counterexample`);
   the generic conversions (`to_generic_*`) consume this table and are component `cat`'s.
@@ -57,6 +63,50 @@ theorem C05_lazy_dec_eq_spec {B P n : Nat} {h : Nat → Nat} {k0 : Nat → Nat} 
   rw [hidx, extList_getD (by have := hs.1; omega), extList_getD (by have := hs.1; omega)]
   rfl
 
+/-- real `f32` instance (`u8`, `P = 6`, the skip phase skips up to five symbols): for every
+    quantile the lazy decoder equals the specification decoder on the eager table -/
+example (q : Nat) (hq : q < 2 ^ 6) :
+    lazyDec 8 6 6 (freeWeight 8 6 6) (lz.hE f32Ops 8) (lz.k0 f32Ops 8 q) q
+      = .ok (Cat.specDec (Cat.unwrap 6 (cdfList 8 6 6 (freeWeight 8 6 6) (lz.hE f32Ops 8))) q) :=
+  C05_lazy_dec_eq_spec (by decide) (by decide) (by decide) (by decide) lz_tbf1 lz_tbf2 hq
+
+/-- **C05, all `…_fast` representations hold the same symbol table**: the contiguous model's,
+    the non-contiguous decoder's and the non-contiguous lookup decoder's `symbol_table()` are the
+    specification table of the same unwrapped cdf (with the given labels), and the hash table of
+    the non-contiguous encoder holds exactly these rows -/
+theorem C05_fast_same_table {Sym : Type} [DecidableEq Sym] [Inhabited Sym] {B P n : Nat}
+    {h : Nat → Nat} (hP1 : 1 ≤ P) (hPB : P ≤ B) (hB : B ≤ 64) (hlen : lenOk P n = true)
+    (tb : TBF1Fast h n) {syms : List Sym} (hs : syms.length = n) (hnd : syms.Nodup) :
+    let free := freeWeight B P n
+    let ext := extList P n free h
+    let tbl := Cat.specTable (fun i => syms.getD i default) ext
+    (Cat.Contiguous.table B ⟨cdfList B P n free h⟩ = .ok (Cat.specTable id ext)) ∧
+    (∃ m, Cat.NcDec.fromSymbolsAndCdf B P syms (innerList P n free h) = .ok (some m) ∧
+      m.table B = .ok tbl) ∧
+    (∃ m, Cat.NcLookup.fromSymbolsAndCdf B P syms (innerList P n free h) = .ok (some m) ∧
+      m.table B = .ok tbl) ∧
+    (∃ m, Cat.NcEnc.fromSymbolsAndCdf B P syms (innerList P n free h) = .ok (some m) ∧
+      m.tbl = tbl) := by
+  intro free ext tbl
+  have ok := FastOk.of_lenOk hP1 hPB hB hlen
+  have hf := freeWeight_eq ok
+  have hv := extList_valid (h := h) ok hf tb
+  have hcv := cdfList_valid (h := h) ok hf tb
+  have hl : syms.length + 1 = ext.length := by show _ = (extList P n free h).length; rw [extList_length]; omega
+  refine ⟨?_, ?_, ?_, ?_⟩
+  · have := Cat.Contiguous.table_eq (m := ⟨cdfList B P n free h⟩) hcv hPB
+    rw [unwrap_cdfList] at this; exact this
+  · obtain ⟨last, hm⟩ := ncdec_fast (free := free) (h := h) ok hs
+    exact ⟨_, hm, Cat.NcDec.table_canon hv hl hPB⟩
+  · obtain ⟨t, last, hm, _⟩ := nclookup_fast (h := h) ok hf tb hs
+    exact ⟨_, hm, Cat.NcLookup.table_canon hv hl hPB⟩
+  · obtain ⟨m, h1, h2, _⟩ := ncenc_fast ok hf tb hs hnd
+    exact ⟨m, h1, h2⟩
+
+example := C05_fast_same_table (B := 32) (P := 24) (n := 5) (h := d4.hE f32Ops 32)
+  (syms := [7, 3, 9, 1, 4]) (by decide) (by decide) (by decide) (by decide) (d4_n ▸ d4_tbf1) rfl
+  (by decide)
+
 /-- **C05, leakily quantised model: iterated symbol table = direct queries** (D1) -/
 theorem C05_leaky_table {m : LQ} {g : Int → Nat} (ok : m.Ok) (gk : GOk m g) :
     ∃ tbl, m.table (extL g) ((m.max - m.min).toNat + 1) m.min 0 = .ok tbl ∧
@@ -97,5 +147,6 @@ end CV.Quant
 
 #print axioms CV.Quant.C05_eager_enc_eq_lazy_enc
 #print axioms CV.Quant.C05_lazy_dec_eq_spec
+#print axioms CV.Quant.C05_fast_same_table
 #print axioms CV.Quant.C05_leaky_table
 #print axioms CV.Quant.C05_D1_counterexample
